@@ -28,6 +28,29 @@ struct Wrapper<S: Space> {
     transitions: Arc<AtomicU64>,
 }
 
+thread_local! {
+    /// The last expansion computed on this thread: stateright asks for the actions of a state and
+    /// then for the successor of each action, one by one.
+    static EXPANSION: std::cell::RefCell<Option<Box<dyn std::any::Any>>> = const { std::cell::RefCell::new(None) };
+}
+
+impl<S: Space> Wrapper<S> {
+    fn with_expansion<R>(&self, state: &S::State, f: impl FnOnce(&Vec<S::State>) -> R) -> R {
+        EXPANSION.with(|cache| {
+            let mut cache = cache.borrow_mut();
+            let hit = cache
+                .as_ref()
+                .and_then(|b| b.downcast_ref::<(S::State, Vec<S::State>)>())
+                .is_some_and(|(s, _)| s == state);
+            if !hit {
+                *cache = Some(Box::new((state.clone(), self.space.succ(state))));
+            }
+            let (_, succ) = cache.as_ref().unwrap().downcast_ref::<(S::State, Vec<S::State>)>().unwrap();
+            f(succ)
+        })
+    }
+}
+
 impl<S: Space> Model for Wrapper<S> {
     type State = S::State;
     type Action = usize;
@@ -37,12 +60,13 @@ impl<S: Space> Model for Wrapper<S> {
     }
 
     fn actions(&self, state: &Self::State, actions: &mut Vec<Self::Action>) {
-        actions.extend(0..self.space.succ(state).len());
+        let count = self.with_expansion(state, |succ| succ.len());
+        actions.extend(0..count);
     }
 
     fn next_state(&self, last_state: &Self::State, action: Self::Action) -> Option<Self::State> {
         self.transitions.fetch_add(1, Ordering::Relaxed);
-        self.space.succ(last_state).into_iter().nth(action)
+        self.with_expansion(last_state, |succ| succ.get(action).cloned())
     }
 
     // stateright calls `next_steps`/`next_states` internally depending on the checker; make both
